@@ -5,7 +5,7 @@ from urllib.parse import urljoin
 from xml.etree import ElementInclude as xinclude
 from xml.etree import ElementTree as etree
 
-from xsdata.exceptions import XmlHandlerError
+from xsdata.exceptions import ParserError, XmlHandlerError
 from xsdata.formats.dataclass.parsers.mixins import XmlHandler
 from xsdata.models.enums import EventType
 from xsdata.utils import namespaces
@@ -33,14 +33,18 @@ class XmlEventHandler(XmlHandler):
         if isinstance(source, etree.Element):
             ctx = iterwalk(source, {})
         elif self.parser.config.process_xinclude:
-            root = etree.parse(source).getroot()  # nosec
+            try:
+                root = etree.parse(source).getroot()  # nosec
+            except (LookupError, ValueError) as e:
+                raise ParserError(e)
+
             base_url = get_base_url(self.parser.config.base_url, source)
             loader = functools.partial(xinclude_loader, base_url=base_url)
 
             xinclude.include(root, loader=loader)
             ctx = iterwalk(root, {})
         else:
-            ctx = etree.iterparse(source, EVENTS)  # nosec
+            ctx = iterparse(source)
 
         return self.process_context(ctx, ns_map)
 
@@ -113,6 +117,28 @@ class XmlEventHandler(XmlHandler):
             result[prefix] = uri
 
         return result
+
+
+def iterparse(source: Any) -> Iterator[tuple[str, Any]]:
+    """Yield the events of the incremental xml parser.
+
+    The xml parser reports a declared encoding it doesn't know or
+    can't handle with a LookupError or a ValueError, only what it
+    raises itself is converted here, the events are consumed elsewhere.
+
+    Args:
+        source: The xml source, a file resource or an input stream
+
+    Yields:
+        An iterator of sax events
+
+    Raises:
+        ParserError: If the xml parser refuses the document encoding
+    """
+    try:
+        yield from etree.iterparse(source, EVENTS)  # nosec
+    except (LookupError, ValueError) as e:
+        raise ParserError(e)
 
 
 def iterwalk(element: etree.Element, ns_map: dict) -> Iterator[tuple[str, Any]]:
